@@ -7,8 +7,11 @@ import "sync"
 // VerifSched is implemented by the deterministic-simulation scheduler of the verification harness.
 // It is consulted before every acquisition and after every release of a VerifRWMutex.
 type VerifSched interface {
-	Acquire(m *VerifRWMutex, write bool)
+	// Acquire returns true when the scheduler has granted the lock, in which case the real
+	// operation must not block (cross-checked with TryLock/TryRLock, Mismatch is called otherwise).
+	Acquire(m *VerifRWMutex, write bool) bool
 	Release(m *VerifRWMutex, write bool)
+	Mismatch(m *VerifRWMutex, write bool)
 	BatchBegin()
 	BatchEnd()
 	TempName(name, prefix, suffix string) string
@@ -28,8 +31,13 @@ type VerifRWMutex struct {
 
 // Lock locks m for writing.
 func (m *VerifRWMutex) Lock() {
-	if h := VerifHook; h != nil {
-		h.Acquire(m, true)
+	if h := VerifHook; h != nil && h.Acquire(m, true) {
+		if !m.mu.TryLock() {
+			h.Mismatch(m, true)
+			m.mu.Lock()
+		}
+
+		return
 	}
 
 	m.mu.Lock()
@@ -46,8 +54,13 @@ func (m *VerifRWMutex) Unlock() {
 
 // RLock locks m for reading.
 func (m *VerifRWMutex) RLock() {
-	if h := VerifHook; h != nil {
-		h.Acquire(m, false)
+	if h := VerifHook; h != nil && h.Acquire(m, false) {
+		if !m.mu.TryRLock() {
+			h.Mismatch(m, false)
+			m.mu.RLock()
+		}
+
+		return
 	}
 
 	m.mu.RLock()
@@ -60,17 +73,6 @@ func (m *VerifRWMutex) RUnlock() {
 	if h := VerifHook; h != nil {
 		h.Release(m, false)
 	}
-}
-
-// TryLockReal reports whether the underlying mutex could be write-locked right now (harness cross-check).
-func (m *VerifRWMutex) TryLockReal() bool {
-	if m.mu.TryLock() {
-		m.mu.Unlock()
-
-		return true
-	}
-
-	return false
 }
 
 // VerifBatchBegin marks the start of a loop that takes locks in Go map iteration order.
